@@ -255,6 +255,43 @@ def ResizeShape.Ok (r : ResizeShape) : Prop :=
 
 instance (r : ResizeShape) : Decidable r.Ok := by unfold ResizeShape.Ok; exact inferInstance
 
+/-! ### the registry of environments (`ENV_MAP`) as read from the source -/
+
+/-- who creates, registers and writes the per-environment gate state (`tools/gen_kvgate.py`
+`extract_registry`); function names are `Impl::fn` -/
+structure RegistryShape where
+  /-- functions holding an `EnvState { .. }` literal -/
+  stateLiterals : List String
+  /-- functions that `.insert(` into a map of environments -/
+  inserts : List String
+  /-- `let has_env = .. contains_key(&full_path) ..` in `Store::new` -/
+  hasEnvIsContainsKey : Bool
+  /-- literal and insert sit inside `if !has_env { .. }` and nowhere else in `Store::new` -/
+  initUnderNotHasEnv : Bool
+  /-- which of `open_txs_count, resizing, resize_checking, stores_count, insert, remove, EnvState,
+  clear, env` the `else` branch (environment already registered) mentions -/
+  elseTouches : List String
+  /-- functions writing `open_txs_count` / `resizing` / `resize_checking` -/
+  countWriters : List String
+  resizingWriters : List String
+  checkingWriters : List String
+deriving DecidableEq, Repr
+
+/-- the registry the models assume (`Model/KvResize.lean` `storeNewEnv`): an `EnvState` is created
+and registered only by the first `Store::new` of a root; a further `Store::new` touches
+`stores_count` only; the counter is written by `enter_tx` and `TxCounter::drop` alone, `resizing`
+by `set_resizing` and the waiter in `maybe_resize`, `resize_checking` by its two accessors and the
+waiter -/
+def RegistryShape.Ok (r : RegistryShape) : Prop :=
+  r.stateLiterals = ["Store::new"] ∧ r.inserts = ["Store::new"] ∧
+  r.hasEnvIsContainsKey = true ∧ r.initUnderNotHasEnv = true ∧
+  r.elseTouches = ["stores_count"] ∧
+  r.countWriters = ["Store::enter_tx", "TxCounter::drop"] ∧
+  r.resizingWriters = ["Store::set_resizing", "Store::maybe_resize"] ∧
+  r.checkingWriters = ["Store::start_resize_checking", "Store::finish_resize_checking", "Store::maybe_resize"]
+
+instance (r : RegistryShape) : Decidable r.Ok := by unfold RegistryShape.Ok; exact inferInstance
+
 /-- … of a function that opens a transaction of its own -/
 def Site.Ok (s : Site) : Prop :=
   s.gateCalls = 1 ∧ s.unconditional = true ∧ s.question = false ∧ s.held = true ∧
